@@ -15,6 +15,7 @@ CONSTANTS
     Dids, DocNames, Keys, VmNames, Seqs,        \* did alphabet (documents are built in DocByName; Seqs: sequence numbers proofs are made over)
     DenomIds, TokenIds, DNames, TDescs,         \* pnft alphabet (TDescs: token description / data values, may include "")
     Amts, SendDenoms, VestEnds,                 \* bank alphabet
+    GovAmts,                                    \* amounts of governance community-pool spends to the burn address ({} = none)
     Fees,                                       \* fee choices, e.g. {0,1}
     Kinds,                                      \* enabled message types
     SignerSets,                                 \* "exact" | "all": which signer sets are tried
@@ -83,6 +84,7 @@ Init ==
     /\ vest = {} /\ exists = Accts \cup {FeeColl}
     /\ supply = [d \in Denoms |-> IF d = "umed" THEN InitBal * Cardinality(Accts) + 1000001 ELSE 1000 * Cardinality(Accts)]
     /\ rest = [d \in Denoms |-> IF d = "umed" THEN 1000001 ELSE 0]
+    /\ pending = {}
     /\ grants = {}
     /\ act = [name |-> "Init"]
     /\ acked = {} /\ accepted = {} /\ delivered = << >>
@@ -189,6 +191,8 @@ MCBegin(m) == "BeginBlock" \in NextKinds /\ BeginBlock(m) /\ UNCHANGED ndel /\ H
 MCRestart(m) == "RestartBegin" \in NextKinds /\ RestartBegin(m) /\ UNCHANGED ndel /\ HistNext /\ path' = Append(path, act')
 MCExport(m) == "ExportImportBegin" \in NextKinds /\ ExportImportBegin(m) /\ UNCHANGED ndel /\ HistNext /\ path' = Append(path, act')
 
+MCGov(n) == "GovSchedule" \in NextKinds /\ Cardinality(pending) < 2 /\ GovSchedule(n) /\ UNCHANGED ndel /\ HistNext /\ path' = Append(path, act')
+
 MCRedeliver(i) == "Redeliver" \in NextKinds /\ ndel < MaxDeliver /\ (FailKeep = 1 \/ RandomElement(1..FailKeep) = 1) /\ Redeliver(delivered[i], i) /\ ndel' = ndel + 1 /\ HistNext /\ path' = Append(path, act')
 
 \* simulation only: keeps a behaviour going when the random filters above disabled everything else (dropped before replay)
@@ -199,6 +203,7 @@ Next ==
     \/ \E i \in DOMAIN delivered : MCRedeliver(i)
     \/ \E tx \in Txs : MCDeliver(tx)
     \/ MCEndBlock
+    \/ \E n \in GovAmts : MCGov(n)
     \/ \E m \in Mints : MCBegin(m)
     \/ \E m \in Mints : MCRestart(m)
     \/ \E m \in Mints : MCExport(m)
